@@ -190,7 +190,9 @@ pub fn well_formed(spec: &'static Spec, m: &Model) -> bool {
         }
         if o.kind != Kind::Flag {
             for v in vals {
-                if v.0.contains(&0) || spec.is_reserved(&v.0) || convert(o.ty, &v.0).as_deref() != Some(&v.0[..]) {
+                // the argument after a value-taking option is its value whatever it looks like, so
+                // words of the grammar are legal option values (not so for positionals below)
+                if v.0.contains(&0) || convert(o.ty, &v.0).as_deref() != Some(&v.0[..]) {
                     return false;
                 }
             }
@@ -374,9 +376,7 @@ fn rec_level(spec: &'static Spec, args: &[Vec<u8>], i: &mut usize, st: &mut Reco
             }
             let v = &args[*i];
             *i += 1;
-            if spec.is_reserved(v) {
-                st.ambiguous = true; // value that is a word of the grammar
-            }
+            // the argument after a value-taking option is its value, whatever it looks like
             let Some(c) = convert(o.ty, v) else {
                 return Err(rej("malformed option value"));
             };
